@@ -38,6 +38,7 @@ def u_spot(U):
     axiom makes every proof that uses it worthless, so it is reported as a failed vacuity guard (the check becomes undecided)."""
     from ttvc import vec  # noqa: F401
     from lemmas import spotcheck
+    spotcheck.load_extensions()
     res = spotcheck.run(seed=0)
     bad = [r for r in res if r[1] == 'FALSIFIED']
     unex = [r for r in res if r[1] in ('unexercised', 'skipped')]
